@@ -228,3 +228,90 @@ func init() {
 		return in.ctx.Bool(types.Comparable(in.rtypeArg(args[0])))
 	})
 }
+
+// deepEqual models reflect.DeepEqual on the engine's values (no maps, no cycles).
+func (in *Interp) deepEqual(t types.Type, a, b Value, depth int) *Term {
+	c := in.ctx
+	if depth > 40 {
+		in.fail("reflect.DeepEqual: structure too deep")
+	}
+	switch u := t.Underlying().(type) {
+	case *types.Basic:
+		if u.Info()&types.IsString != 0 {
+			return in.strEq(a.(StrV), b.(StrV))
+		}
+		if u.Kind() == types.UnsafePointer {
+			return c.Bool(a.(Ptr) == b.(Ptr))
+		}
+		return in.equal(t, a, b)
+	case *types.Pointer:
+		pa, pb := a.(Ptr), b.(Ptr)
+		if pa.ID == 0 || pb.ID == 0 {
+			return c.Bool(pa.ID == 0 && pb.ID == 0)
+		}
+		if pa == pb {
+			return c.Bool(true)
+		}
+		return in.deepEqual(u.Elem(), in.load(pa, u.Elem()), in.load(pb, u.Elem()), depth+1)
+	case *types.Struct:
+		sa, sb := a.(*StructV), b.(*StructV)
+		r := c.Bool(true)
+		for i := range sa.F {
+			r = c.And(r, in.deepEqual(u.Field(i).Type(), sa.F[i], sb.F[i], depth+1))
+		}
+		return r
+	case *types.Array:
+		aa, ab := a.(*ArrayV), b.(*ArrayV)
+		r := c.Bool(true)
+		for i := range aa.E {
+			r = c.And(r, in.deepEqual(u.Elem(), aa.E[i], ab.E[i], depth+1))
+		}
+		return r
+	case *types.Slice:
+		sa, sb := a.(SliceV), b.(SliceV)
+		if (sa.P.ID == 0) != (sb.P.ID == 0) || sa.Len != sb.Len {
+			return c.Bool(false)
+		}
+		es := sizeof(u.Elem())
+		r := c.Bool(true)
+		for i := 0; i < sa.Len; i++ {
+			x := in.load(Ptr{sa.P.ID, sa.P.Off + i*es}, u.Elem())
+			y := in.load(Ptr{sb.P.ID, sb.P.Off + i*es}, u.Elem())
+			r = c.And(r, in.deepEqual(u.Elem(), x, y, depth+1))
+		}
+		return r
+	case *types.Interface:
+		ia, ib := a.(*IfaceV), b.(*IfaceV)
+		an := ia == nil || ia.T == nil
+		bn := ib == nil || ib.T == nil
+		if an || bn {
+			return c.Bool(an && bn)
+		}
+		if !types.Identical(ia.T, ib.T) {
+			return c.Bool(false)
+		}
+		return in.deepEqual(ia.T, ia.V, ib.V, depth+1)
+	case *types.Signature:
+		fa, fb := a.(*FuncV), b.(*FuncV)
+		an := fa == nil || (fa.Fn == nil && fa.B == nil)
+		bn := fb == nil || (fb.Fn == nil && fb.B == nil)
+		return c.Bool(an && bn)
+	}
+	in.fail("reflect.DeepEqual on %s is not modelled", t)
+	return nil
+}
+
+func init() {
+	libIntrinsics["reflect.DeepEqual"] = func(in *Interp, fn *ssa.Function, args []Value) Value {
+		ia, ib := args[0].(*IfaceV), args[1].(*IfaceV)
+		an := ia == nil || ia.T == nil
+		bn := ib == nil || ib.T == nil
+		if an || bn {
+			return in.ctx.Bool(an && bn)
+		}
+		if !types.Identical(ia.T, ib.T) {
+			return in.ctx.Bool(false)
+		}
+		return in.deepEqual(ia.T, ia.V, ib.V, 0)
+	}
+}
